@@ -127,6 +127,9 @@ def run_one(tape: Any, cfg: Dict[str, Any], forbid: FrozenSet[str] = frozenset()
             resps.append(b'HTTP/1.1 200 OK\r\nContent-Length: %d\r\nX-I: %d\r\n\r\n' % (n, i) + body[:n])
         if nreq > 1:
             w.probe('second_request')
+        # keep the number of segment moves per run bounded (a 400 kB reply through 64-byte buffers is 10^5 scheduler steps per hop)
+        floor = max(64, scen.unit_floor(sum(len(r) for r in resps) + sum(len(r) for r, _ in reqs), 3000))
+        caps = [max(c, floor) for c in caps]
         oc = _px[(host, situation)]
         sctx = ssl.SSLContext(ssl.PROTOCOL_TLS_SERVER)
         sctx.load_cert_chain(oc['cert'], oc['key'])
